@@ -162,11 +162,14 @@ def Pop.dropDead (p : Pop) : Pop :=
 
 inductive Kind where
   | static | random | erdos | disk | null | mf | msm | embedding | maternal
+  /-- RandomNet whose `n_contacts` is a plain number stored on the parameter object (the `else` branch of
+      `RandomNet.add_pairs`: `np.ones(len(people)) * n_contacts`) -/
+  | randomPlain
   deriving DecidableEq, Repr
 
 def Kind.keys : Kind → Meta
   | .static | .disk | .null => ⟨false, false, false⟩
-  | .random | .erdos => ⟨true, false, false⟩
+  | .random | .erdos | .randomPlain => ⟨true, false, false⟩
   | .mf | .msm | .embedding => ⟨true, true, false⟩
   | .maternal => ⟨true, false, true⟩
 
@@ -192,6 +195,7 @@ structure Choice where
   pairs : List (Nat × Nat) := []          -- ErdosRenyi / Disk / Static: selected index pairs
   pick : List Nat := []                   -- MFNet: `choice(larger group, n, replace=False)`; Embedding: males
   pick2 : List Nat := []                  -- Embedding: females (linear_sum_assignment columns)
+  counts : List Nat := []                 -- RandomNet, plain-number n_contacts: rounded half-contacts per POSITION in `people`
   durAt : Nat → Rat := fun _ => 0         -- duration of the i-th new edge
   actsAt : Nat → Rat := fun _ => 0
   participant : Nat → Bool := fun _ => false   -- network states after set_network_states
@@ -214,6 +218,14 @@ def Net.available (n : Net) (p : Pop) (wantFemale : Bool) : List Nat :=
 /-- `RandomNet.get_source`: each agent repeated `n_i` times -/
 def randomSource (born : List Nat) (nOf : Nat → Nat) : List Nat :=
   born.flatMap (fun u => List.replicate (nOf u) u)
+
+/-- `get_source(born.uids, number_of_contacts)` when `number_of_contacts` has one entry per active agent:
+    `asis` leaves the slots of the entries beyond `len(born)` at their initial value 0; `spec` has no such slots -/
+def plainSource (v : Variant) (born : List Nat) (counts : List Nat) : List Nat :=
+  let head := ((counts.take born.length).zip born).flatMap (fun ku => List.replicate ku.1 ku.2)
+  match v with
+  | .spec => head
+  | .asis => head ++ List.replicate (counts.drop born.length).sum 0
 
 /-- decidable "is a permutation" -/
 def isPerm (a b : List Nat) : Bool :=
@@ -242,6 +254,14 @@ def Net.newPairs (n : Net) (p : Pop) (c : Choice) : Except Err (Option (List Nat
       let born := p.auids.filter (fun u => p.alive u && decide (0 < p.age u))
       let source := randomSource born c.nOf
       if isPerm c.target source then .ok (some (source, c.target)) else .error .badChoice
+  | .randomPlain =>
+      -- number_of_contacts has one entry per ACTIVE agent (`len(people)`), but `get_source` walks over `born.uids` only:
+      -- `source` has `sum(number_of_contacts)` slots, the first ones filled agent by agent, the rest left at 0.
+      let born := p.auids.filter (fun u => p.alive u && decide (0 < p.age u))
+      if c.counts.length = p.auids.length then
+        if isPerm c.target (plainSource n.variant born c.counts) then .ok (some (plainSource n.variant born c.counts, c.target))
+        else .error .badChoice
+      else .error .badChoice
   | .erdos =>
       -- born_uids = (age > 0).uids
       let born := p.auids.filter (fun u => decide (0 < p.age u))
@@ -289,7 +309,7 @@ def Net.step (n : Net) (p : Pop) (dt ti : Rat) (c : Choice) : Except Err Net :=
   match n.kind with
   | .static | .null => .ok n
   | .maternal => .ok { n with table := n.table.matStep ti }
-  | .random | .erdos => { n with table := n.table.endPairs dt p.alive }.addPairs p c
+  | .random | .erdos | .randomPlain => { n with table := n.table.endPairs dt p.alive }.addPairs p c
   | .disk => n.addPairs p c
   | .mf | .msm | .embedding =>
       { n with table := n.table.endPairs dt p.alive, participant := c.participant, debut := c.debut }.addPairs p c
@@ -370,6 +390,38 @@ def World.init (n : Nat) (female : Nat → Bool) (age : Nat → Rat) (k : Kind) 
   | .ok net => .ok { pop := p, net := net }
   | .error e => .error e
 
+/-! ### Mixing pools: Routes that are not Networks but are told about removed agents all the same -/
+
+/-- insertion into a sorted duplicate-free list -/
+def insertSorted (x : Nat) : List Nat → List Nat
+  | [] => [x]
+  | y :: ys => if x < y then x :: y :: ys else if x = y then y :: ys else y :: insertSorted x ys
+
+/-- `uids.remove(other)` = `np.setdiff1d(self, other)`: the sorted, duplicate-free members not in `other` -/
+def setdiff (l uids : List Nat) : List Nat :=
+  (l.filter (fun u => !uids.contains u)).foldr insertSorted []
+
+/-- the explicit-uid `src` / `dst` groups of a MixingPool (or of every pool of a MixingPools) -/
+structure Pool where
+  groups : List (List Nat)
+
+/-- `MixingPool.remove_uids` / `MixingPools.remove_uids` -/
+def Pool.removeUids (q : Pool) (uids : List Nat) : Pool := { groups := q.groups.map (setdiff · uids) }
+
+structure PoolWorld where
+  pop : Pop
+  pool : Pool
+
+/-- the population operations as a pool sees them (`remove_dead` calls `remove_uids` on every Route in `sim.networks`) -/
+def PoolWorld.step (w : PoolWorld) : Op → PoolWorld
+  | .grow k f a => { w with pop := w.pop.grow k f a }
+  | .die uids => { w with pop := w.pop.die uids }
+  | .removeDead => { pop := w.pop.dropDead, pool := w.pool.removeUids w.pop.deadUids }
+  | .setAge a => { w with pop := { w.pop with age := a } }
+  | _ => w
+
+def PoolWorld.run (w : PoolWorld) (ops : List Op) : PoolWorld := ops.foldl PoolWorld.step w
+
 /-! ### Row view of a dynamic table (used to state how long an edge lives) -/
 
 /-- the rows `(p1, p2, dur)` of a table -/
@@ -383,6 +435,18 @@ def ageRow (dt : Rat) (alive : Nat → Bool) (r : Nat × Nat × Rat) : Option (N
 def ageRowN (dt : Rat) (alive : Nat → Bool) : Nat → Nat × Nat × Rat → Option (Nat × Nat × Rat)
   | 0, r => some r
   | k + 1, r => (ageRowN dt alive k r).bind (ageRow dt alive)
+
+/-- successive `end_pairs` on one row, the `i`-th seeing the living agents `als[i]` -/
+def ageRowL (dt : Rat) : List (Nat → Bool) → Nat × Nat × Rat → Option (Nat × Nat × Rat)
+  | [], r => some r
+  | al :: als, r => (ageRow dt al r).bind (ageRowL dt als)
+
+/-- the rows of a dynamic network after a sequence of its own `step()`s (`dt` = the NETWORK's timestep): each step
+    `(alive, new)` keeps the survivors of `end_pairs` and then appends `new` -/
+def runRowsL (dt : Rat) (rows : List (Nat × Nat × Rat)) :
+    List ((Nat → Bool) × List (Nat × Nat × Rat)) → List (Nat × Nat × Rat)
+  | [] => rows
+  | (al, new) :: rest => runRowsL dt (rows.filterMap (ageRow dt al) ++ new) rest
 
 /-! ### Invariants as executable checks (used by the driver on OBSERVED tables) -/
 
